@@ -266,8 +266,12 @@ def read_str_coding(source):
         newline = "\n"
         CODING_LINE_PATTERN = re.compile(CODING_LINE_PATTERN.decode("ascii"))
     for line in source.split(newline, 2)[:2]:
-        if re.match(CODING_LINE_PATTERN, line):
-            return _find_coding(line)
+        match = re.match(CODING_LINE_PATTERN, line)
+        if match:
+            coding = match.group(1)
+            if isinstance(coding, bytes):
+                coding = coding.decode("ascii")
+            return coding
     else:
         return
 
